@@ -149,7 +149,7 @@ func c13List(tier string) []c13Case {
 	// templates below, with each argument position replaced by each boundary value
 	seen := map[string]bool{}
 	var tpls [][]string
-	for _, k := range []string{"kn", "ks", "kl", "kh", "kz", "kx"} {
+	for _, k := range []string{"kn", "ks", "kl", "kh", "kz", "kx", "ke"} {
 		for _, op := range commandMatrix(k, true) {
 			tpls = append(tpls, op.Args)
 		}
